@@ -205,18 +205,16 @@ pub fn build_tag(rc: RawControl) -> StructureTag {
 }
 
 pub fn parse_controls(t: StructureTag) -> Vec<Control> {
-    let tags = t.expect_constructed().expect("result sequence").into_iter();
+    try_parse_controls(t).expect("controls")
+}
+
+/// Fallible control list parser, for input which comes straight from the network.
+pub fn try_parse_controls(t: StructureTag) -> Option<Vec<Control>> {
+    let tags = t.expect_constructed()?.into_iter();
     let mut ctrls = Vec::new();
     for ctrl in tags {
-        let mut components = ctrl.expect_constructed().expect("components").into_iter();
-        let ctype = String::from_utf8(
-            components
-                .next()
-                .expect("element")
-                .expect_primitive()
-                .expect("octet string"),
-        )
-        .expect("control type");
+        let mut components = ctrl.expect_constructed()?.into_iter();
+        let ctype = String::from_utf8(components.next()?.expect_primitive()?).ok()?;
         let next = components.next();
         let (crit, maybe_val) = match next {
             None => (false, None),
@@ -224,18 +222,21 @@ pub fn parse_controls(t: StructureTag) -> Vec<Control> {
                 StructureTag {
                     id, ref payload, ..
                 } if id == Types::Boolean as u64 => match *payload {
-                    PL::P(ref v) => (v[0] != 0, components.next()),
-                    PL::C(_) => panic!("decoding error"),
+                    PL::P(ref v) => (*v.first()? != 0, components.next()),
+                    PL::C(_) => return None,
                 },
                 StructureTag { id, .. } if id == Types::OctetString as u64 => {
                     (false, Some(c.clone()))
                 }
-                _ => panic!("decoding error"),
+                _ => return None,
             },
         };
-        let val = maybe_val.map(|v| v.expect_primitive().expect("octet string"));
+        let val = match maybe_val {
+            Some(v) => Some(v.expect_primitive()?),
+            None => None,
+        };
         let known_type = CONTROLS.get(&*ctype).copied();
         ctrls.push(Control(known_type, RawControl { ctype, crit, val }));
     }
-    ctrls
+    Some(ctrls)
 }
